@@ -4,6 +4,7 @@
 # quick check of each property, and restores the tree. Never commits anything.
 set -u
 what="$1"; shift
+case "$what" in -R*) ;; /*) ;; *) what="$PWD/$what";; esac
 cd /repo || exit 2
 if [ -n "$(git status --porcelain --untracked-files=no)" ]; then echo "repo working tree not clean"; exit 2; fi
 if [[ "$what" == -R* ]]; then
